@@ -350,7 +350,7 @@ pub struct Outcome {
 }
 
 pub enum Policy {
-    Random { rng: Rng, stick: u64 },
+    Random { rng: Rng, stick: u64, burst: Option<(usize, usize)> },
     /// Random for `after` steps; then everybody but `who` is frozen until `who` has finished the
     /// API call it is in (C09: no operation waits for another thread); then random again.
     Solo { rng: Rng, stick: u64, after: usize, who: usize, steps: usize, solo_steps: usize, done: bool },
@@ -423,7 +423,7 @@ impl Policy {
                             *who = if !fresh.is_empty() && rng.chance(2, 3) { fresh[rng.range(0, fresh.len())] } else { ids[rng.range(0, ids.len())] };
                         } else {
                             *steps += 0;
-                            let mut inner = Policy::Random { rng: rng.clone(), stick: *stick };
+                            let mut inner = Policy::Random { rng: rng.clone(), stick: *stick, burst: None };
                             let r = inner.next(parked, apis, last);
                             if let Policy::Random { rng: r2, .. } = inner {
                                 *rng = r2;
@@ -444,14 +444,22 @@ impl Policy {
                         _ => *done = true,
                     }
                 }
-                let mut inner = Policy::Random { rng: rng.clone(), stick: *stick };
+                let mut inner = Policy::Random { rng: rng.clone(), stick: *stick, burst: None };
                 let r = inner.next(parked, apis, last);
                 if let Policy::Random { rng: r2, .. } = inner {
                     *rng = r2;
                 }
                 r
             }
-            Policy::Random { rng, stick } => {
+            Policy::Random { rng, stick, burst } => {
+                if let Some((bt, left)) = burst {
+                    if *left > 0 && parked.contains_key(bt) {
+                        *left -= 1;
+                        let spur = false;
+                        return Some((*bt, spur));
+                    }
+                    *burst = None;
+                }
                 let t = if let (Some(l), true) = (last, rng.chance(*stick, 100)) {
                     if parked.contains_key(&l) { l } else { ids[rng.range(0, ids.len())] }
                 } else {
@@ -461,7 +469,8 @@ impl Policy {
                         let s = &parked[t].site;
                         !is_writer_api(apis.get(t).map(|x| x.as_str()).unwrap_or(""))
                             && (s.contains("attempt#1") || s.contains("fast.rs:Slots::get_debt") || s.contains("fallback#0")
-                                || s.contains("helping.rs:Slots::confirm") || s.contains("helping.rs:Slots::get_debt#1"))
+                                || s.contains("helping.rs:Slots::confirm") || s.contains("helping.rs:Slots::get_debt#1")
+                                || s == "varc" || s.contains("Debt::pay#0"))
                     });
                     let writers: Vec<usize> = ids
                         .iter()
@@ -469,7 +478,12 @@ impl Policy {
                         .filter(|t| is_writer_api(apis.get(t).map(|x| x.as_str()).unwrap_or("")))
                         .collect();
                     if reader_in_window && !writers.is_empty() && rng.chance(1, 2) {
-                        writers[rng.range(0, writers.len())]
+                        let wt = writers[rng.range(0, writers.len())];
+                        if rng.chance(1, 3) {
+                            // let that writer complete (most of) a whole write inside the window
+                            *burst = Some((wt, rng.range(10, 120)));
+                        }
+                        wt
                     } else {
                         ids[rng.range(0, ids.len())]
                     }
